@@ -324,14 +324,20 @@ func (p *service) processSubscribe(msg *message.SubscribeMessage) error {
 		} else {
 			nrmsgs := p.rmsgs[rlen:]
 			for j := range nrmsgs {
-				if nrmsgs[j].QoS() > rqos {
+				if nrmsgs[j].QoS() != message.QosAtMostOnce {
 					// do not alter retained message
 					m, err := nrmsgs[j].Clone()
 					if err != nil {
 						log.Warningf("Clone of message failed: %v", err)
 					} else {
 						// downgrade qos
-						m.SetQoS(rqos)
+						if m.QoS() > rqos {
+							m.SetQoS(rqos)
+						}
+						// the packet ID is this connection's, not the original publisher's
+						if m.QoS() != message.QosAtMostOnce {
+							m.SetPacketID(p.nextPacketID())
+						}
 						// affects p.rmsgs
 						nrmsgs[j] = m
 					}
